@@ -574,6 +574,9 @@ class SymStr:
             r = self.iter_next(I, st, args[0], n)
             if r is not None:
                 return r
+            if a0 is not None and a0[0] == "abs" and a0[1] == "siter" and args[0][0] != "ref":
+                # next() on a temporary iterator: the advanced iterator is dropped
+                return [(OK, some(a0[2][a0[3]]) if a0[3] < len(a0[2]) else none(), st)]
         if c in ("core::iter::traits::collect::IntoIterator::into_iter", "core::iter::traits::iterator::Iterator::by_ref") or c.endswith("IntoIterator>::into_iter"):
             if a0 is not None and a0[0] == "abs" and a0[1] == "siter":
                 return [(OK, args[0] if c.endswith("by_ref") else a0, st)]
